@@ -193,3 +193,28 @@ def quiet_logging():
 def drain_garbage():
     import gc
     gc.collect()
+
+
+# ---------------------------------------------------------------------------------------------
+# asyncio.runners._cancel_all_tasks() cancels tasks in the iteration order of a set (address
+# dependent). Own that nondeterminism: creation order, ascending or descending (a world choice).
+import re as _re
+from asyncio import tasks as _tasks
+
+_real_all_tasks = _tasks.all_tasks
+CANCEL_ORDER = {'desc': False}
+_hex = _re.compile(r'0x[0-9a-fA-F]+')
+
+
+def _task_key(t):
+    n = t.get_name()
+    if n.startswith('Task-') and n[5:].isdigit():
+        return (0, int(n[5:]), '')
+    return (1, 0, _hex.sub('', n))
+
+
+def ordered_all_tasks(loop=None):
+    return sorted(_real_all_tasks(loop), key=_task_key, reverse=CANCEL_ORDER['desc'])
+
+
+_tasks.all_tasks = ordered_all_tasks
